@@ -287,7 +287,7 @@ func c04NT(c fsCase) (bool, []string) {
 	return (c.Fault != nil && inflight) || notify, cl
 }
 
-const c04Rule = "fault engine of C03 (workload x fault kind x direction x frame x position x calls in the reconnect window x double faults) with call kinds {plain, no-context, notify-tagged, retry-tagged as contrast}, plus healthy runs over ws, http and custom transports; executions counted per unique call token and request frames counted per token on the wire. Non-trivial = faulted case with a call in flight at the fault, or a case containing a notification; distinct by descriptor hash"
+const c04Rule = "fault engine of C03 (workload x fault kind x direction x frame x position x calls in the reconnect window x double faults) with call kinds {plain, no-context, notify-tagged (to a plain method or to the channel-returning one), retry-tagged as contrast}, plus healthy runs over ws, http and custom transports; executions counted per unique call token and request frames counted per token on the wire. Non-trivial = faulted case with a call in flight at the fault, or a case containing a notification; distinct by descriptor hash"
 
 func TestC04(t *testing.T) {
 	rec := NewRec("C04", c04Rule)
@@ -318,6 +318,8 @@ func TestC04(t *testing.T) {
 		}
 		run(t, fsCase{Calls: healthy})
 		run(t, fsCase{Calls: healthy[:3]})
+		// notifications addressed to the channel-returning method: executed once, answered with nothing at all
+		run(t, fsCase{Calls: []fsCall{{Kind: "call", When: "pre"}, {Kind: "notify", Plan: Plan{ViaSub: true, N: 2}, When: "pre"}, {Kind: "notify", Plan: Plan{ViaSub: true}, When: "pre"}, {Kind: "call", When: "pre"}}})
 		// calls issued with an already cancelled context: whatever answer they get must come from an execution
 		pre := []fsCall{}
 		for i := 0; i < 12; i++ {
@@ -365,6 +367,11 @@ func TestC04(t *testing.T) {
 	})
 	rec.Rapid(t, "rapid", func(rt *rapid.T) {
 		c := fsCase{Calls: genFsCalls(rt, []string{"call", "call", "notify", "notify", "retry", "noctx", "sub"}, []string{"pre", "pre", "pre", "noticed", "window", "healed"}, 2, 8)}
+		for i := range c.Calls {
+			if c.Calls[i].Kind == "notify" && rapid.IntRange(0, 3).Draw(rt, fmt.Sprintf("viasub%d", i)) == 0 {
+				c.Calls[i].Plan.ViaSub = true
+			}
+		}
 		if rapid.IntRange(0, 4).Draw(rt, "healthy") != 0 {
 			npre := 0
 			for _, fc := range c.Calls {
